@@ -148,15 +148,18 @@ def r2(ctx):
         ctx.ob(key, ok, f"exempt={got}" if ok else
                f"host {host!r} with no_proxy {nop!r}: code says exempt={got}, documented rule says {want}", loc,
                {"host": host, "no_proxy": nop, "outcome_path": path_text(outs[0]) if outs else None})
-    # environment fallback: option else no_proxy / NO_PROXY, spaces stripped, comma split
-    for env, host, want in (({"no_proxy": "a.b, .example.com"}, "x.example.com", True), ({"NO_PROXY": "x.example.com"}, "x.example.com", True),
-                            ({"no_proxy": ".example.com"}, "example.org", False), ({}, "x.example.com", False)):
+    # environment fallback: option else no_proxy / NO_PROXY, spaces stripped, comma split; a given option wins over the environment
+    for env, host, want, opt in (({"no_proxy": "a.b, .example.com"}, "x.example.com", True, None), ({"NO_PROXY": "x.example.com"}, "x.example.com", True, None),
+                                 ({"no_proxy": ".example.com"}, "example.org", False, None), ({}, "x.example.com", False, None),
+                                 ({"no_proxy": "other.org"}, "x.example.com", True, ["x.example.com"]), ({"no_proxy": "*"}, "x.example.com", False, ["other.org"]),
+                                 ({"NO_PROXY": "x.example.com"}, "x.example.com", False, [".elsewhere.net"]), ({"no_proxy": "x.example.com"}, "x.example.com", True, [])):
         Ie = Interp(ctx.index, Config(stubs=_fold_stubs(env)))
-        outs = Ie.explore(lambda run: Ie.call(run, Ie.make_fn(run, q), [C(host), NONE], {}, None))
+        outs = Ie.explore(lambda run: Ie.call(run, Ie.make_fn(run, q), [C(host), NONE if opt is None else new_list(run, [C(x) for x in opt])], {}, None))
         ctx.paths += len(outs)
         ok = len(outs) == 1 and outs[0].kind == "return" and isinstance(outs[0].value, C) and bool(outs[0].value.v) == want
-        ctx.ob(f"{q}:env:{sorted(env.items())}:{host}", ok, f"environment list honoured: exempt={want}" if ok else
-               f"with environment {env} host {host}: {[(o.kind, o.value) for o in outs]} (expected {want})", loc)
+        ctx.ob(f"{q}:env:{sorted(env.items())}:option={opt}:{host}", ok, f"option else environment: exempt={want}" if ok else
+               f"with environment {env} and no_proxy option {opt} host {host}: {[(o.kind, o.value) for o in outs]} (expected {want}: the option, when given and non-empty, "
+               f"is the list; the environment is only the fallback)", loc)
 
 
 @rule("R-C19-1", min_instances=8, title="get_proxy_info decision order: exemption, then option (port 0 refused), then the scheme's environment variable")
@@ -276,18 +279,30 @@ def r4(ctx):
             raise RaiseSig(run.alloc(HObj("builtins.ValueError", {"args": Tup(())})), node)
         return Tup((isym(run, "status", 100, 599), Sym("hdrs"), Sym("msg")))
 
+    def b64(fn):
+        def f(I, run, args, kwargs, node):
+            import base64 as _b
+            v = I.resolve(run, args[0])
+            if isinstance(v, C) and isinstance(v.v, (bytes, bytearray)):
+                return C(getattr(_b, fn)(bytes(v.v)))   # trusted library on a constant (encodebytes wraps its output every 76 characters)
+            from ..transfer import external
+            return external(I, run, f"base64.{fn}", args, kwargs, node, kind="bytes")
+        return f
+
     stubs = {"_http:read_headers": rh, "_socket:send": lambda I, run, a, k, n: (run.effect("send", a, node=n), C(1))[1],
-             "_logging:dump": lambda *a: NONE, "_logging:debug": lambda *a: NONE}
-    for auth_kind in ("none", "user", "user-pass", "empty-user"):
+             "_logging:dump": lambda *a: NONE, "_logging:debug": lambda *a: NONE, "base64.encodebytes": b64("encodebytes"), "base64.b64encode": b64("b64encode")}
+    LONG = ("u" * 30, "p" * 40)   # 71 bytes of credentials: more than one 76-character line of base64
+    for auth_kind in ("none", "user", "user-pass", "empty-user", "long-credentials"):
         I = Interp(ctx.index, Config(stubs=stubs))
 
         def body(run):
-            auth = {"none": NONE, "user": Tup((C("alice"), NONE)), "user-pass": Tup((C("alice"), C("s3cret"))), "empty-user": Tup((C(""), C("x")))}[auth_kind]
+            auth = {"none": NONE, "user": Tup((C("alice"), NONE)), "user-pass": Tup((C("alice"), C("s3cret"))), "empty-user": Tup((C(""), C("x"))),
+                    "long-credentials": Tup((C(LONG[0]), C(LONG[1])))}[auth_kind]
             return I.call(run, I.make_fn(run, q), [Sym("sock", "obj"), Sym("host", "str"), Sym("port", "int"), auth], {}, None)
 
         outs = ctx.count_paths(I.explore(body))
         import base64
-        cred = {"user": "alice", "user-pass": "alice:s3cret"}.get(auth_kind)
+        cred = {"user": "alice", "user-pass": "alice:s3cret", "long-credentials": LONG[0] + ":" + LONG[1]}.get(auth_kind)
         bad = None
         for o in outs:
             sends = [e for e in o.effects if e.name == "send"]
@@ -301,8 +316,8 @@ def r4(ctx):
             if cred is None:
                 ok_t = ok_t and mid == ""
             else:
-                ok_t = ok_t and mid.startswith("Proxy-Authorization: Basic ") and mid.endswith("\r\n") and "\n" not in mid[:-2] \
-                    and "b64" in mid or "encodebytes" in mid or base64.b64encode(cred.encode()).decode() in mid
+                # exactly one header line carrying base64(user[:password]) -- no line break inside the value, however long it is
+                ok_t = ok_t and mid == "Proxy-Authorization: Basic " + base64.b64encode(cred.encode()).decode() + "\r\n"
             if not ok_t:
                 bad = bad or (f"request {t!r}", o)
             # reads happen after the write
